@@ -8,6 +8,7 @@ require (
 )
 
 require (
+	github.com/alecthomas/participle/v2 v2.0.0 // indirect
 	github.com/barbashov/iso639-3 v0.0.0-20211020172741-1f4ffb2d8d1c // indirect
 	github.com/fxamacker/cbor/v2 v2.4.0 // indirect
 	github.com/jackc/pgpassfile v1.0.0 // indirect
